@@ -13,9 +13,9 @@ META = {
             "(no glyph twice among first-side members, nor among second-side members; no bare prefix), for ALL maps; "
             "load/save return or write only valid groups and accept all valid ones; the conversion keeps the originals, "
             "duplicates exactly the groups the text names under fresh distinct public.kern1./2. names with identical "
-            "members and adds nothing else; every pair is renamed with its value unchanged unless two kerning keys "
-            "coincide after renaming (class PairCollision, refuted by witness); the unique-name loop terminates within "
-            "|groups|+1 steps and returns the least free candidate. Tied to /repo on every run: every groups/kerning/"
+            "members and adds nothing else; every pair is renamed with its value unchanged (the new names avoid the "
+            "kerning keys of their side, so no two keys coincide after renaming); the unique-name loop terminates within "
+            "|groups|+|kerning keys|+1 steps and returns the least free candidate. Tied to /repo on every run: every groups/kerning/"
             "glyph-set triple with <= 3 groups x <= 2 pairs over a 5-name universe (and a slice of a second universe) and "
             "random larger triples go through Font::load / Font::save and through the model; groups, kerning, error "
             "variant (with its glyph and group) are compared.",
@@ -30,10 +30,10 @@ TRUSTED = ["model Model/Groups.v hand-written from src/groups.rs, src/upconversi
            "Coq 8.16.1 kernel and vm_compute; no axioms; no extraction",
            "outcomes of the enumerated cases are compared through a 63-bit polynomial hash of the full dump"]
 ASSUMPTIONS = ["names are valid norad Names (non-empty, no control characters) - enforced by plist deserialisation",
-               "the glyph-name set handed to the conversion is the interner's content (F21); the harness computes it as "
-               "contents keys + inner glif names + component bases, checked by the correspondence itself",
+               "the glyph-name set handed to the conversion is the set of glyph names (contents keys) of the loaded layers "
+               "(since 090c163); generated UFOs also carry stale inner glif names and component bases of missing glyphs",
+               "the kerning is a map of maps (no duplicate keys): type invariant of BTreeMap, hypothesis wf_kerning",
                "make_unique_group_name's counter is an i32 in the code, unbounded in the model"]
-CLASSES = ("F21", "PairCollision")
 HEADER = (b"From Coq Require Import Uint63.\nRequire Import Norad.Run.RunBase Norad.Run.C15.\nOpen Scope string_scope. Open Scope N_scope.\n"
           b"Set Printing Width 100000. Set Printing Depth 1000000.\n")
 
